@@ -148,6 +148,9 @@ class Sim:
             return eng.make_leaf(set(), iteration.RowSequence([]), name_prefix=prefix).name
         if kind == "leafshared":
             return eng.make_leaf(set(), self.shared_payload, name_prefix=prefix).name
+        if kind == "leafmsg":
+            # an auto-named leaf known to be empty that also carries diagnostic messages
+            return eng.make_leaf(set(), iteration.RowSequence([]), messages=["nothing here"], name_prefix=prefix).name
         if kind in ("sqlleaf", "sqlmat", "sqlmat_marked"):
             return self.sql_request(kind, prefix, ei)
         return leaves[ei % len(leaves)].with_rows_satisfying(_false_pred()).materialized(name_prefix=prefix).name
@@ -274,7 +277,7 @@ def gen_scenario(base_seed, idx, tier):
         for _ in range(nreq):
             kind = rng.choice(["getname", "getname", "leaf", "mat"])
             if rng.random() < 0.25:
-                kind = rng.choice(["leafshared", "leafshared", "sqlleaf", "sqlmat", "sqlmat_marked"])
+                kind = rng.choice(["leafshared", "leafshared", "sqlleaf", "sqlmat", "sqlmat_marked", "leafmsg"])
             prefix = rng.choice(PREFIXES[:2]) if rng.random() < 0.7 else rng.choice(PREFIXES)
             reqs.append([kind, rng.randrange(engines), prefix])
         threads.append(reqs)
